@@ -453,6 +453,8 @@ func warmUp() {
 	}
 }
 
+var codeReads bool
+
 func explore(c *vk.Ctx) {
 	// layout facts the scenarios rely on (roles were chosen accordingly in initTargets)
 	if page(pc(steady.fn)) != page(pc(targets["F1"].fn)) || page(pc(steady.fn)) != page(pc(targets["F2"].fn)) || page(pc(targets["F3"].fn)) == page(pc(steady.fn)) {
@@ -468,8 +470,11 @@ func explore(c *vk.Ctx) {
 	outcomes := 0
 	for i, sn := range scenarios(c.Thorough()) {
 		_ = i
+		if codeReads && sn.Name != "2generic" && sn.Name != "generic+plain/2mockers" {
+			continue
+		}
 		sc, all := scenario(sn)
-		cs := Case{"explore", sn, nil}
+		cs := Case{map[bool]string{false: "explore", true: "codereads"}[codeReads], sn, nil}
 		c.Sample(cs)
 		for _, b := range bounds {
 			if sn.Name == "same-page/2mockers+2callers" && b > 2 || sn.Name == "3mockers" && b > 2 {
@@ -484,7 +489,7 @@ func explore(c *vk.Ctx) {
 					}
 					return sb.String()
 				},
-				Key:  "explore scn=" + sn.Name,
+				Key:  map[bool]string{false: "explore", true: "codereads"}[codeReads] + " scn=" + sn.Name,
 				Case: func(s []int) interface{} { cc := cs; cc.Schedule = s; return cc },
 			})
 			outcomes += len(res.Outcomes)
@@ -763,7 +768,7 @@ func Run(c *vk.Ctx) {
 	if c.Replay != "" {
 		var cs Case
 		c.LoadReplay(&cs)
-		if cs.Sub != "explore" {
+		if cs.Sub != "explore" && cs.Sub != "codereads" {
 			fmt.Println("race-pass findings are not replayable deterministically; re-run the check")
 			c.Finish()
 			return
@@ -790,6 +795,13 @@ func Run(c *vk.Ctx) {
 	}
 	switch c.Sub {
 	case "explore":
+		explore(c)
+	case "codereads":
+		// the binary of this job has a scheduling point on entry to and return from every function of goom's
+		// memory package (reads and writes of the program's own code): the scenarios whose threads read code
+		// outside the patch lock - generic targets, whose instantiation wrapper is decoded before the lock is
+		// taken - are explored again at that finer grain
+		codeReads = true
 		explore(c)
 	case "race":
 		race(c)
